@@ -57,6 +57,10 @@ type World struct {
 	// SignedDigests records the SHA-256 digests handed to Signer.Sign.
 	SignedDigests [][]byte
 	Results       []string
+	// NilCommit: a successful TryCommit is represented by nil (as testing/nonprod/localnonvcs does);
+	// OnCommit runs when a commit has landed, before TryCommit returns
+	NilCommit bool
+	OnCommit  func()
 }
 
 func (w *World) log(op string, ws int, out string) { w.Log = append(w.Log, Event{op, ws, out}) }
@@ -316,6 +320,12 @@ func (ws *Workspace) TryCommit(context.Context) (any, error) {
 	}
 	w.Head = copyMap(ws.cur)
 	ws.committed = true
+	if w.OnCommit != nil {
+		w.OnCommit()
+	}
+	if w.NilCommit {
+		return nil, nil
+	}
 	return fmt.Sprintf("commit-of-ws-%d", ws.id), nil
 }
 
